@@ -18,6 +18,7 @@ type SharedDecl struct {
 	Types   map[string]bool // type names (in the declaring package)
 	Startup map[string]bool // function names allowed to write (run before requests are served)
 	Globals bool
+	Reviewed map[string]bool // package-level variables whose address may escape to calls while serving
 }
 
 // sharedRoot walks an address/value back to its origin and reports whether it derives
@@ -155,6 +156,29 @@ func (c *Ctx) sharedFlowFunc(fn *ssa.Function, sd *SharedDecl) []*Obligation {
 			}
 			if cc == nil {
 				continue
+			}
+			// the address of a package-level variable handed to a call (e.g. a method with pointer
+			// receiver on a map/cache/counter variable) is shared mutable state in the request path
+			for _, a := range cc.Args {
+				g, ok := a.(*ssa.Global)
+				if !ok || g.Pkg == nil || !strings.HasPrefix(g.Pkg.Pkg.Path(), repoMod) {
+					continue
+				}
+				name := fmt.Sprintf("%s#shared-write#global-escape.%s", c.funcKey(fn), g.Name())
+				seenName[name]++
+				if n := seenName[name]; n > 1 {
+					name = fmt.Sprintf("%s@%d", name, n)
+				}
+				ob := &Obligation{Name: name, Kind: "shared-write", Func: c.funcKey(fn), Solver: "sharedflow", Goal: "package-level variable not handed to a call while serving", PC: "true", Result: "unsat"}
+				if ins.Pos().IsValid() {
+					p := c.fset.Position(ins.Pos())
+					ob.Pos = fmt.Sprintf("%s:%d", p.Filename, p.Line)
+				}
+				if !sd.Reviewed[g.Name()] {
+					ob.Result = "sat"
+					ob.Model = fmt.Sprintf("the address of package-level variable %s is passed to a call at %s outside the start-up functions (shared mutable state such as a cache); if this is intended and safe, list it under reviewed_globals", g.Name(), ob.Pos)
+				}
+				obs = append(obs, ob)
 			}
 			callee := cc.StaticCallee()
 			if callee == nil || callee.Pkg == nil || callee.Pkg != root.Pkg {
